@@ -46,6 +46,7 @@ CONSTANTS
     WithUCS,        \* TRUE: an OP_CODESEPARATOR may sit in an unexecuted branch
     WithSig,        \* TRUE: legacy scripts may embed a push of the signature itself (FindAndDelete)
     WithLong,       \* TRUE: legacy scripts embedding the signature are also tried with a signature of 76 bytes or more
+    MDepths,        \* lengths of the Merkle path of script-path spends (0 = single-leaf tree; at most 128)
     WithMulti,      \* TRUE: legacy / BIP143 scripts may check the signature with a 1-of-1 OP_CHECKMULTISIG
     Bug,            \* "none" = the rules; other values = deliberately broken rules that TLC must refute
     \* ---- cache machine
@@ -109,13 +110,14 @@ Leaves(fs) == UNION {IF Len(f.of) = 0 THEN {f} ELSE Leaves(f.of) : f \in Range(f
 (* of non-OP_CODESEPARATOR opcodes (function-level cases).                 *)
 (***************************************************************************)
 OP0 == 0   OP1 == 81   IFOP == 99   ENDIF == 104   DROP == 117   DUP == 118   EQUALVERIFY == 136
-HASH160 == 169   CS == 171   CHK == 172   CHKMS == 174
+HASH160 == 169   CS == 171   CHK == 172   CHKMS == 174   CHKADD == 186
 PSIG == 1000   PPK == 1001   PPKH == 1002      \* PPKH: push of HASH160(public key)
 PDATA == 1003                                  \* push of some bytes: ONE opcode, several bytes
 
 \* macro items the scripts are composed of
 ItemToks(i) == CASE i = "K" -> <<PPK, CHK>>                \* <pubkey> OP_CHECKSIG (signature below the key)
                  [] i = "M" -> <<OP1, PPK, OP1, CHKMS>>    \* 1 <pubkey> 1 OP_CHECKMULTISIG (dummy and signature below)
+                 [] i = "A" -> <<OP0, PPK, CHKADD>>        \* 0 <pubkey> OP_CHECKSIGADD (tapscript; signature below)
                  [] i = "C" -> <<CS>>                      \* executed OP_CODESEPARATOR
                  [] i = "U" -> <<OP0, IFOP, CS, ENDIF>>    \* OP_CODESEPARATOR in a branch not taken
                  [] i = "S" -> <<PSIG>>                    \* the signature pushed by the script itself, used by K / M
@@ -133,12 +135,14 @@ ItemSeqs(sigs, multi) ==
 Scripts(sigs, multi) == {Flat([i \in DOMAIN s |-> ItemToks(s[i])]) : s \in ItemSeqs(sigs, multi)}
 P2wpkhCode == <<DUP, HASH160, PPKH, EQUALVERIFY, CHK>>
 \* tapscripts also with a data push in front, so that opcode positions and byte offsets differ (BIP342 counts opcodes)
+\* ... and with OP_CHECKSIGADD in the place of OP_CHECKSIG
 TapScripts == Scripts(FALSE, FALSE) \cup {<<PDATA, DROP>> \o s : s \in Scripts(FALSE, FALSE)}
+              \cup {Flat([i \in DOMAIN s |-> ItemToks(IF s[i] = "K" THEN "A" ELSE s[i])]) : s \in ItemSeqs(FALSE, FALSE)}
 
 (***************************************************************************)
 (* The interpreter's part (EvalScript, OP_CHECKSIG / BIP342 execution).    *)
 (***************************************************************************)
-ChkPos(s) == CHOOSE i \in DOMAIN s : s[i] \in {CHK, CHKMS}      \* the one signature-checking opcode
+ChkPos(s) == CHOOSE i \in DOMAIN s : s[i] \in {CHK, CHKMS, CHKADD}      \* the one signature-checking opcode
 \* every OP_IF of these scripts consumes OP_0: tokens up to the matching OP_ENDIF are not executed
 NotExecuted(s, p) == \E q \in 1..(p - 1) : s[q] = IFOP /\ \A r \in (q + 1)..(p - 1) : s[r] # ENDIF
 ExecutedSeps(s)   == {p \in DOMAIN s : s[p] = CS /\ ~NotExecuted(s, p) /\ p < ChkPos(s)}
@@ -246,11 +250,18 @@ vars  == <<c, slot, lock, pc, cur, loc, ndone, last>>
 NoCase == [q |-> [mode |-> "none"]]
 Q(m, nin, nout, idx, ht, s, annex, path, x0) ==
     [mode |-> m, nin |-> nin, nout |-> nout, idx |-> idx, ht |-> ht, script |-> s, annex |-> annex, path |-> path, x0 |-> x0,
-     long |-> FALSE]
+     long |-> FALSE, mp |-> [n |-> 0, side |-> 0]]
 \* long: the signature is a zero-padded (pre-BIP66, non-strict DER) encoding of 76..255 bytes, so the push that
 \* FindAndDelete looks for, CScript() << vchSig, is an OP_PUSHDATA1 push.  Same Preimage: PSIG is "the push of the
 \* signature" whatever its length.  Enumerated for legacy scripts that embed the signature.
 Long(q) == [q EXCEPT !.long = TRUE]
+\* mp: position of the leaf in the taproot script tree: n = length of the Merkle path in the control block, side = how
+\* the running hash compares with the sibling at each level (BIP341: the lexicographically smaller one is hashed first):
+\* 0 always smaller, 1 always larger, 2 / 3 alternating starting smaller / larger.  The Preimage does not depend on it:
+\* tapleaf_hash in the BIP342 extension is the hash of the LEAF (version, script) wherever the leaf sits in the tree.
+MerklePaths == {[n |-> n, side |-> sd] : n \in MDepths, sd \in 0..3} \ 
+               ({[n |-> 0, side |-> sd] : sd \in 1..3} \cup {[n |-> 1, side |-> sd] : sd \in 2..3}
+                \cup {[n |-> n, side |-> sd] : n \in MDepths \ {0, 1, 2}, sd \in 0..1})
 Case(q) == [q |-> q, code |-> CodeArg(q.mode, q.script), feed |-> FeedSig(q.script),
             csp |-> CodeSepPos(q.script), pre |-> Preimage(q)]
 
@@ -269,8 +280,10 @@ PCases ==
               c' = Case(Q("bip143", nin, nout, idx, ht, P2wpkhCode, FALSE, "p2wpkh", FALSE))
        \/ "bip341" \in Modes /\ \E lo \in TapHTKey, annex \in BOOLEAN, x0 \in BOOLEAN : (x0 => lo = 0) /\
               c' = Case(Q("bip341", nin, nout, idx, <<lo, 0>>, KeyScript, annex, "key", x0))
-       \/ "bip341" \in Modes /\ \E lo \in TapHTScript, annex \in BOOLEAN, x0 \in BOOLEAN, s \in TapScripts : (x0 => lo = 0) /\
-              c' = Case(Q("bip341", nin, nout, idx, <<lo, 0>>, s, annex, "script", x0))
+       \/ "bip341" \in Modes /\ \E lo \in TapHTScript, annex \in BOOLEAN, x0 \in BOOLEAN, s \in TapScripts, mp \in MerklePaths :
+              /\ x0 => lo = 0
+              /\ mp.n > 0 => (lo \in TapValid /\ ~x0)        \* trees with several leaves: for every defined hash type
+              /\ c' = Case([Q("bip341", nin, nout, idx, <<lo, 0>>, s, annex, "script", x0) EXCEPT !.mp = mp])
 
 PInit == c = NoCase
 PNext == c = NoCase /\ PCases /\ UNCHANGED cvars
